@@ -364,6 +364,14 @@ impl Table {
     }
 }
 
+#[cfg(feature = "verif")]
+impl Table {
+    /// Verification hook: the index block of the table.
+    pub(crate) fn index_block_for_verif(&self) -> &DataBlockReader {
+        &self.index_block
+    }
+}
+
 impl fmt::Debug for Table {
     fn fmt(&self, f: &mut fmt::Formatter<'_>) -> fmt::Result {
         f.debug_struct("Table")
